@@ -77,7 +77,35 @@ and show_key k = match k with
   | JNull -> "s6e756c6c"      (* the literal null as a key is the symbol null, like the string "null" *)
   | _ -> show_json k
 
+
+(* ---- CSV wire format: grammar  seps:quote:dbl:esc:rs  (seps = dot separated hex code points, quote / esc = hex or n, dbl = 0/1,
+   rs = lax | crlf | hex); table: rows joined by |, fields by ;, a field = comma separated hex code points or _ ; a row without
+   fields = ~ ; no rows = - *)
+let opt_of s = if s = "n" then None else Some (z_of_hex s)
+let grammar_of (s : string) : grammar =
+  match String.split_on_char ':' s with
+  | [sp; q; d; e; r] ->
+     { seps = (if sp = "" then [] else List.map z_of_hex (String.split_on_char '.' sp)); quote = opt_of q; dbl = (d = "1"); esc = opt_of e;
+       rs = (if r = "lax" then RLax else if r = "crlf" then RCrlf else RChar (z_of_hex r)) }
+  | _ -> failwith "bad grammar"
+let rows_of (s : string) : z list list list =
+  if s = "-" then [] else
+  List.map (fun r -> if r = "~" then [] else List.map cps_of_string (String.split_on_char ';' r)) (String.split_on_char '|' s)
+let string_of_rows (rows : z list list list) : string =
+  if rows = [] then "-" else
+  String.concat "|" (List.map (fun r -> if r = [] then "~" else String.concat ";" (List.map string_of_cps r)) rows)
+let show_f64 (d : z) : string = if isnan64 d then "nan" else hex_of_z d
+let rec upto a b = if a >= b then [] else a :: upto (a + 1) b
+
 let handle = function
+  | ["csvw"; g; rows] -> (match csv_write (grammar_of g) (rows_of rows) with Some t -> "S " ^ string_of_cps t | None -> "N")
+  | ["csvr"; g; txt] -> (match csv_read (grammar_of g) (cps_of_string txt) with Some r -> "S " ^ string_of_rows r | None -> "N")
+  | ["h2d"; h] -> show_f64 (gen_half_to_double (z_of_hex h))
+  | ["d2h"; d] -> hex_of_z (gen_double_to_half (z_of_hex d))
+  | ["q2d"; q] -> show_f64 (quarter_to_double (z_of_hex q))
+  | ["d2q"; d] -> hex_of_z (double_to_quarter (z_of_hex d))
+  | ["allh2d"] -> String.concat " " (List.map (fun i -> show_f64 (gen_half_to_double (z_of_i i))) (upto 0 65536))
+  | ["allq2d"] -> String.concat " " (List.map (fun i -> show_f64 (quarter_to_double (z_of_i i))) (upto 0 256))
   | ["qpenc"; col; h] -> hex_of_bytes (qp_loop mAXCOL sEP (bytes_of_hex h) (z_of_i (int_of_string col)))
   | ["qpencx"; mc; sep; col; h] -> hex_of_bytes (qp_loop (z_of_i (int_of_string mc)) (bytes_of_hex sep) (bytes_of_hex h) (z_of_i (int_of_string col)))
   | ["qpdecm"; mime; h] -> let l = bytes_of_hex h in
